@@ -1,14 +1,15 @@
 ---------------------------- MODULE MC_Commands ----------------------------
 (* Design level: TLC explores the cache / age / selection decisions of read, write and find (Commands!SStep) against  *)
 (* the monitor of Commands.tla for sessions of any length: commands of a small alphabet with clock ticks {0,1,299,301} *)
-(* in between.  Time is kept relative (ages are capped at 401 s, the largest -m value is 400) and the telegram counters *)
+(* in between, up to MaxDepth commands.  Time is kept relative (ages are capped at 401 s, the largest -m value is 400) and the telegram counters *)
 (* modulo 3, so the state space is finite.                                                                            *)
 (*   MC_Commands.cfg        Mode = "doc"     (decisions as documented)  - McOk must hold                              *)
 (*   MC_CommandsPinned.cfg  Mode = "pinned"  (decisions as coded)       - TLC finds the cached-value differences        *)
 EXTENDS Commands
 CONSTANT Mode
-VARIABLES mw, ms, mp, mok
-mvars == <<mw, ms, mp, mok>>
+VARIABLES mw, ms, mp, mok, mdepth
+mvars == <<mw, ms, mp, mok, mdepth>>
+CONSTANT MaxDepth
 NOW == 1000
 CAP == NOW - 401
 
@@ -32,17 +33,17 @@ ShiftP(w, p, tk) == [p EXCEPT !.d = [i \in Msgs(w) |-> IF ~p.d[i].may THEN NoDat
 McInit == /\ mw \in McWorlds
           /\ ms = ShiftS(mw, SInit(mw), -NOW)
           /\ mp = ShiftP(mw, PInit(mw), -NOW)
-          /\ mok = TRUE
+          /\ mok = TRUE /\ mdepth = 0
 McNext == \E c \in McCmds(mw) :
             LET now == NOW + c.tk
                 x == SStep(Mode, mw, ms, now, c)
                 o == [a |-> x.a, bus |-> x.bus, pr |-> x.st.pr, dat |-> [i \in Msgs(mw) |-> IF x.st.e[i].has THEN 1 ELSE 0]]
                 ok == CmdOk({}, mw, mp, now, c, o, ms.pr)
-            IN /\ mok /\ mw' = mw
+            IN /\ mok /\ mdepth < MaxDepth /\ mdepth' = mdepth + 1 /\ mw' = mw
                /\ ms' = ShiftS(mw, x.st, c.tk)
                /\ mp' = ShiftP(mw, PUpd(mw, mp, now, c, o), c.tk)
                /\ mok' = ok
-               /\ (ok \/ PrintT(<<"VF", "MC-REJECT", mw.fam, c.tk, c.op, c.n, c.cache, c.c, c.d, c.i, o.a, o.bus>>))
+               /\ (ok \/ PrintT(<<"VF", "MC-REJECT", mw.fam, mdepth + 1, c.tk, c.op, c.cache, c.d, Len(c.i), Len(o.bus)>>))
 McOk == mok
 (* the monitor's "surely cached" is never wrong about the coded cache, "may be cached" never misses it *)
 McCacheTracked == \A i \in Msgs(mw) : (mp.d[i].sure => ms.e[i].has) /\ (ms.e[i].has => mp.d[i].may)
